@@ -23,6 +23,7 @@ ASSUME Out("deepobj", DeepObj)
 ASSUME Out("keyed2k", Keyed2K)
 ASSUME Out("mergedocs", MergeDocs)
 ASSUME Out("mergedeep", MergeDeep)
+ASSUME Out("yamldocs", YamlDocs)
 ASSUME Out("objptr", ObjPtr)
 ASSUME Out("ptrdeep", PtrDeep)
 =============================================================================
